@@ -58,6 +58,18 @@ Theorem C20_not_silently_inspected_any_caller : forall parse S c w,
 Proof. intros parse S c w. exact (process_body_inspected parse cur S c w). Qed.
 Print Assumptions C20_not_silently_inspected_any_caller.
 
+(* a body over the limit is never silently cut: after ANY call list on a fresh transaction, a
+   WriteRequestBody whose data reaches or exceeds the limit - including the case where earlier chunks
+   filled the buffer EXACTLY and this chunk is dropped whole - leaves INBOUND_DATA_ERROR = 1
+   (invariant: the buffer holds [limit] bytes only with the signal raised) *)
+Theorem C20_over_limit_surfaces : forall parse S c l fs d,
+  0 < c_limit c ->
+  let w := run parse cur S c l (init_world fs) in
+  c_limit c <= bb_len (wbuf w) + length d ->
+  t_inbound (w_tx (fst (step parse cur S c (CWrite d) w))) = true.
+Proof. intros parse S c l fs d. exact (over_limit_surfaces parse cur S c l fs d). Qed.
+Print Assumptions C20_over_limit_surfaces.
+
 (* Close after any call list returns an error exactly when one of its own operations failed
    (Remove of an upload, Close or Remove of the spill file): nothing is swallowed, nothing invented *)
 Theorem C20_close_reports_exactly_its_faults : forall parse S c l w,
